@@ -24,3 +24,32 @@ package defaults
 //@   -- the query string of the GET confirm / recover / 2FA-verify routes)
 //@   ensures[C17] no_secret_leak: secrets_clean
 //@   ensures[C18] error_is_logged: each CallFuncValue(_) -> ?e => e != nil ==> emits Log("error", _)
+//@
+//@ -- C19: the default password policy -------------------------------------------------------
+//@ -- Character classes are what tallyCharacters counts (the implementation's unicode
+//@ -- predicates over the runes of s); lengths are in bytes.
+//@ func tallyCharacters
+//@   property C19
+//@   option summary callers use this contract, not the body
+//@   option trusted body not verified (one loop over the runes of s classifying each with the unicode package)
+//@   ensures counts: result.0 == count_upper(s) && result.1 == count_lower(s) && result.2 == count_numeric(s) &&
+//@       result.3 == count_symbols(s) && result.4 == count_whitespace(s) &&
+//@       result.0 >= 0 && result.1 >= 0 && result.2 >= 0 && result.3 >= 0 && result.4 >= 0
+//@
+//@ spec meets_policy(r, s) :=
+//@        !(r.Required && (len(s) == 0 || regex_match(blankRegex, s))) &&
+//@        (r.MustMatch == nil || regex_match(r.MustMatch, s)) &&
+//@        !((r.MinLength > 0 && len(s) < r.MinLength) || (r.MaxLength > 0 && len(s) > r.MaxLength)) &&
+//@        count_upper(s) + count_lower(s) >= r.MinLetters && count_upper(s) >= r.MinUpper && count_lower(s) >= r.MinLower &&
+//@        count_numeric(s) >= r.MinNumeric && count_symbols(s) >= r.MinSymbols &&
+//@        (r.AllowWhitespace || count_whitespace(s) == 0)
+//@
+//@ func (Rules).Errors
+//@   property C19
+//@   -- a value is accepted exactly when it meets every configured minimum
+//@   ensures policy_exact: (result == nil) <=> meets_policy(r, toValidate)
+//@   ensures no_panic: !panics
+//@
+//@ func (Rules).IsValid
+//@   property C19
+//@   ensures is_valid_exact: result <=> meets_policy(r, toValidate)
